@@ -20,7 +20,7 @@ func init() {
 	register(&Check{
 		ID: "C04", Level: "exploration", Primary: "script_shapes", EvalCount: "responses_checked",
 		Rule: "a response script = constructor in {NewResponse, NewBindResponse, NewSearchDoneResponse, NewSearchResponseEntry, NewExtendedResponse, NewModifyResponse} x a PRNG-chosen subset of that " +
-			"constructor's documented options (in 15% of the scripts of the typed constructors also options the constructor does not support - an application code, result code, strings, attributes - placed before or after the supported ones: they must not change what goes out) x 0..4 setters (SetResultCode, SetDiagnosticMessage, SetMatchedDN, SetControls, AddAttribute) with values from an adversarial pool (result codes 0..32767, application " +
+			"constructor's documented options (NewResponse without an application code answers with its own tag, ExtendedResponse, whatever the kind of the request - the scripts are carried by bind, search, add, delete and modify requests; in 15% of the scripts of the typed constructors also options the constructor does not support - an application code, result code, strings, attributes - placed before or after the supported ones: they must not change what goes out) x 0..4 setters (SetResultCode, SetDiagnosticMessage, SetMatchedDN, SetControls, AddAttribute) with values from an adversarial pool (result codes 0..32767, application " +
 			"codes 0..30, empty/binary/invalid-UTF-8 strings, 127/128/65535/65536/200000-byte strings, 0..n attributes x 0..m values, all control kinds); the handler runs the script for a request whose message ID is drawn " +
 			"from 0..2^31-1, and the strict parser checks the one frame it produced against a last-writer-wins model (fields never set are unconstrained). A quarter of the single-response requests write their response object also before some of their setters (each write must show the state at that point); a fifth of the connections park a request and let a LATER request's handler answer it through its own writer (the frame must still carry the parked request's message ID); a third of the requests get 2..3 responses. " +
 			"distinct_nontrivial = distinct (constructor, option subset, setter sequence, length classes, message-id class) signatures",
@@ -33,7 +33,7 @@ func init() {
 			}
 			return ps
 		},
-		MinObserved: []string{"responses_checked", "goldap_responses_checked", "responses_from_a_request_with_several_responses", "responses_written_again_after_further_setters", "requests_answered_by_another_requests_handler", "responses_built_with_options_their_constructor_does_not_support"},
+		MinObserved: []string{"responses_checked", "goldap_responses_checked", "responses_from_a_request_with_several_responses", "responses_written_again_after_further_setters", "requests_answered_by_another_requests_handler", "responses_built_with_options_their_constructor_does_not_support", "scripts_carried_by_add_delete_and_modify_requests"},
 	})
 }
 
@@ -220,7 +220,7 @@ func genScript(r *Rand, ctor string) *c04Script {
 	return s
 }
 
-var c04Foreign atomic.Int64
+var c04Foreign, c04OtherKinds atomic.Int64
 
 type c04Parked struct {
 	req  *gldap.Request
@@ -409,6 +409,11 @@ func (s *c04Script) expect() c04Expect {
 		e.Tag = &t
 	} else if s.OptApp != nil {
 		e.Tag = s.OptApp
+	} else {
+		// NewResponse without an application code: the constructor's own tag (ExtendedResponse), whatever kind of
+		// request the response was created from
+		t := 24
+		e.Tag = &t
 	}
 	if s.Ctor == "NewSearchResponseEntry" {
 		e.IsEntry = true
@@ -529,6 +534,12 @@ func c04Scripts(c *Ctx, useTLS bool) {
 					key = m.UserName
 				} else if m, err := req.GetSearchMessage(); err == nil {
 					key = m.BaseDN
+				} else if m, err := req.GetAddMessage(); err == nil {
+					key = m.DN
+				} else if m, err := req.GetDeleteMessage(); err == nil {
+					key = m.DN
+				} else if m, err := req.GetModifyMessage(); err == nil {
+					key = m.DN
 				}
 				mu.Lock()
 				s := scripts[key]
@@ -599,7 +610,13 @@ func c04Scripts(c *Ctx, useTLS bool) {
 			if useTLS {
 				stc, ctc = pki.ServerOnly, pki.ClientPlain
 			}
-			srv, err := startSrv(SrvCfg{TLS: stc}, func(m *gldap.Mux) { m.Bind(handler); m.Search(handler) })
+			srv, err := startSrv(SrvCfg{TLS: stc}, func(m *gldap.Mux) {
+				m.Bind(handler)
+				m.Search(handler)
+				m.Add(handler)
+				m.Delete(handler)
+				m.Modify(handler)
+			})
 			if err != nil {
 				c.Inconclusive("server start: " + err.Error())
 				return
@@ -639,10 +656,21 @@ func c04Scripts(c *Ctx, useTLS bool) {
 					}
 					scripts[key] = group
 					list = append(list, group...)
-					if r.Bool() {
+					// the request that carries the script is of any kind: what a constructor produces does not depend on it
+					switch r.Intn(8) {
+					case 0, 1, 2:
 						all = append(all, sber.Message(s.MsgID, sber.BindRequest(3, []byte(key), []byte("p")), nil).Encode()...)
-					} else {
+					case 3, 4:
 						all = append(all, sber.Message(s.MsgID, sber.Search{Base: []byte(key), Scope: 2, Filter: sber.PresentFilter("objectClass"), Attrs: [][]byte{}}.Node(), nil).Encode()...)
+					case 5:
+						all = append(all, sber.Message(s.MsgID, sber.AddRequest([]byte(key), []sber.Attr{{Type: []byte("cn"), Vals: [][]byte{[]byte("x")}}}), nil).Encode()...)
+						c04OtherKinds.Add(1)
+					case 6:
+						all = append(all, sber.Message(s.MsgID, sber.DelRequest([]byte(key)), nil).Encode()...)
+						c04OtherKinds.Add(1)
+					default:
+						all = append(all, sber.Message(s.MsgID, sber.ModifyRequest([]byte(key), nil), nil).Encode()...)
+						c04OtherKinds.Add(1)
 					}
 				}
 				// now and then: a request that is answered by a LATER request's handler, with that handler's writer
@@ -742,6 +770,7 @@ func c04Scripts(c *Ctx, useTLS bool) {
 	}
 	wg.Wait()
 	c.Count("responses_built_with_options_their_constructor_does_not_support", c04Foreign.Swap(0))
+	c.Count("scripts_carried_by_add_delete_and_modify_requests", c04OtherKinds.Swap(0))
 }
 
 // c04GoLDAP pushes Bind and Search flows through go-ldap as a second observer.
